@@ -23,7 +23,7 @@ BUDGET = {"quick": 75, "thorough": 1200}
 RUN_TIMEOUT = 150
 SELFTEST_PAIRS = {"quick": 10, "thorough": 30}
 PROBES = ["two_tasks_in_charmap_section", "exception_inside_section", "failing_input_in_history",
-          "lock_contended", "sequential_history", "aes_pdf_in_workload", "mixed_formats", "archive_7z_in_workload"]
+          "lock_contended", "sequential_history", "aes_pdf_in_workload", "mixed_formats", "archive_7z_in_workload", "systematic_switch_in_section"]
 RULE = ("one run = k real threads x 1-3 real extractions (or one sequential history of 2-10) under a seeded pre-emptive schedule; "
         "distinct non-trivial = distinct projection of the event log onto (task, line) events inside the char-map patch section plus "
         "context-switch positions, counted only when >= 2 tasks overlapped inside the section or the history mixes >= 2 documents")
@@ -176,7 +176,7 @@ def warm():
 
 # ------------------------------------------------------------------------------------------------ generation
 def gen_case(rng: random.Random, tier: str) -> dict:
-    mode = rng.choices(["threads", "sequential"], [4, 1])[0]
+    mode = rng.choices(["threads", "sequential", "section_enum"], [4, 1, 2])[0]
     plain = [n for n in _pdfs if not n.startswith("var/aes")]
 
     def pick():
@@ -184,6 +184,14 @@ def gen_case(rng: random.Random, tier: str) -> dict:
         if r < 0.06:
             return rng.choice([n for n in _pdfs if n.startswith("var/aes")] or plain)
         return rng.choice(plain) if r < 0.72 else rng.choice(_pool)
+    if mode == "section_enum":
+        # systematic: k tasks, no random pre-emption; context switches exactly at chosen line events inside the patch section
+        k = rng.choice([2, 2, 3])
+        tasks = [[rng.choice(plain)] for _ in range(k)]
+        nsw = rng.choice([1, 1, 2, 2, 3, 4])
+        case = {"mode": "section_enum", "tasks": tasks, "sched_seed": rng.randrange(1 << 40), "p_call": 0.0, "p_line": 0.0,
+                "line_granularity": False, "inject": None, "schedule": None, "sec_switch": sorted(rng.sample(range(0, 70), nsw))}
+        return case
     if mode == "sequential":
         tasks = [[pick() for _ in range(rng.randrange(2, 9))]]
     else:
@@ -336,12 +344,20 @@ def run_case(case: dict) -> dict:
     sc = _section_code
     first_line = sc.co_firstlineno if sc is not None else -1
 
+    sec_switch = set(case.get("sec_switch") or [])
+    nsec = [0]
+
     def on_line(t, code, line):
         if code is sc:
             proj.update(f"{t.idx}:{line - first_line};".encode())
             if t.idx not in inside:
                 inside[t.idx] = 0
             inside[t.idx] += 1
+            if sec_switch:
+                if nsec[0] in sec_switch and not sched.replay:
+                    sched.force = True
+                    probes["systematic_switch_in_section"] = probes.get("systematic_switch_in_section", 0) + 1
+                nsec[0] += 1
     sched.on_line = on_line
 
     results = {}
@@ -455,6 +471,9 @@ def shrink(case):
     if case.get("line_granularity"):
         yield dict(case, line_granularity=False, schedule=None)
     # fewer context switches in the recorded schedule
+    if case.get("sec_switch") and len(case["sec_switch"]) > 1 and not sch:
+        for i in range(len(case["sec_switch"])):
+            yield dict(case, sec_switch=case["sec_switch"][:i] + case["sec_switch"][i + 1:])
     if sch and sch["switches"]:
         sw = sch["switches"]
         n = len(sw)
